@@ -29,3 +29,13 @@ def run(ctx, rep):
                             "hands the lines on unchanged", floor=10)
     from .chain import check_chain
     check_chain(ctx, rch, "instrument", strict=True)
+    rh = rep.rule("states", "HOPOState has three distinct members STRUM / HOPO / TAP (no aliasing)", floor=3)
+    hc = ctx.cls("chartparse.instrument.HOPOState")
+    tab = ctx.fold.enum_table(hc)
+    from .lib import fail
+    prim = {n for n, v in tab.primaries()}
+    for n in ("STRUM", "HOPO", "TAP"):
+        rh.inst(f"HOPOState.{n}", nontrivial=False)
+        if n not in prim:
+            fail(rh, ctx, hc, hc.node, f"HOPOState.{n} is missing or an alias of another state ({[(a, p) for a, v, p in tab.aliases()]}): two states would be "
+                                       f"indistinguishable")
